@@ -118,3 +118,30 @@ class Suite(object):
 
     def teardown(self):
         """Called once per worker process after the last case."""
+
+
+class local_timezone(object):
+    """Run a block with the process time zone set to a POSIX TZ string (no tz database needed), e.g. 'XXX5'
+    (UTC-5) or 'YYY-3' (UTC+3).  HTTP dates are GMT: nothing a check observes may depend on the server's zone."""
+
+    def __init__(self, tz):
+        self.tz = tz
+
+    def __enter__(self):
+        import os
+        import time
+        self.old = os.environ.get('TZ')
+        if self.tz:
+            os.environ['TZ'] = self.tz
+            time.tzset()
+
+    def __exit__(self, *a):
+        import os
+        import time
+        if self.tz:
+            if self.old is None:
+                os.environ.pop('TZ', None)
+            else:
+                os.environ['TZ'] = self.old
+            time.tzset()
+        return False
